@@ -227,6 +227,7 @@ void basis_eval(const Model &m, const std::string &cstat, const std::string &rst
 // ---------------------------------------------------------------- generators (qsx_gen.cpp)
 struct GenOpts {
   int maxm = 8, maxn = 8;
+  int minm = 0, minn = 1;
   int bigness = 1;       // 0 small ints only, 1 mixed pools, 2 include huge/tiny
   bool allow_range = true, allow_int = false;
   bool unique_names = true;
